@@ -290,8 +290,8 @@ def hash_tokens(rule, crate):
     want = {b"#nil": "Nil", b"#t": "Bool", b"#f": "Bool", b"#(": "VecOpen", b"#u8(": "ByteVecOpen",
             b"#vu8(": "ByteVecOpen", b"#:": "Keyword"}
     pt = crate.fn("parse::Parser::<R>::parse_token")
-    tok = crate.variant_names("parse::Token")
-    if pt is None or not tok:
+    tm = lex.TokenModel(crate)
+    if pt is None or not tm.ok:
         rule.anchor_missing("parse_token / Token")
         return
     rule.floor("hash-constants", len(consts))
@@ -315,7 +315,7 @@ def hash_tokens(rule, crate):
                 continue
             r = p.ret
             if isinstance(r, Adt) and r.variant == 0 and isinstance(r.fields[0], Adt):
-                kinds.add(tok[r.fields[0].variant])
+                kinds.add(tm.kind(r.fields[0], S, p))
             elif isinstance(r, Adt) and r.variant == 1:
                 kinds.add("Err")
         w = want.get(c)
